@@ -211,6 +211,51 @@ def family(rnd):
     return out
 
 
+def shared_folders(rnd, k):
+    """a CacheColumns over a field `a` and a CacheToDisk over a field b = f(a) write into the same folders; f is a user function or the builtin
+    `tuple` (finding F11 of the pinned tree: a shard with one entry is keyed by ApplyHash(tuple, hash of the entry), the node hash of tuple(a));
+    both orders of filling; every value must be the one of the cache-free pipeline"""
+    import shutil
+    import tempfile
+    from connectome import CacheToDisk, CacheColumns
+    from connectome.interface.metaclasses import SourceBase, TransformBase
+    from connectome import meta
+    from connectome.serializers import PickleSerializer
+    from tarn import DiskDict, HashKeyStorage
+    ids = tuple(sorted(rnd.sample(IDS, rnd.choice([1, 1, 2, 3]))))
+    shard = rnd.choice([None, 2]) if len(ids) > 1 else None
+    fname = rnd.choice(['builtins.tuple', 'builtins.tuple', 's002'])
+    if k == 0:
+        ids, shard, fname = ('a',), None, 'builtins.tuple'
+    f = tuple if fname == 'builtins.tuple' else P.sym(fname)
+    sympool.TABLE['t030'] = lambda i: [i, i + i]
+    rec = {'ids': list(ids), 'shard': shard, 'function': fname, 'orders': []}
+    for order in ('columns-first', 'disk-first'):
+        root = tempfile.mkdtemp(prefix=f'shared{k}_', dir=os.environ.get('VERIF_WORK', None))
+        try:
+            src = SourceBase([('ids', meta(Function(P._const_ids(ids)))), ('a', Function(P.sym('t030'), 'key'))])
+            tr = TransformBase([('b', Function(f, 'a'))], inherit=True)
+            plain = src >> tr
+            disk = CacheToDisk.simple('b', root=root, serializer=PickleSerializer())
+            cols = CacheColumns(os.path.join(root, 'index'), HashKeyStorage(DiskDict(os.path.join(root, 'storage'))), PickleSerializer(), ['a'], shard_size=shard)
+            with_disk = src >> tr >> disk
+            with_cols = src >> cols
+            calls = [(with_cols, 'a'), (with_disk, 'b')] if order == 'columns-first' else [(with_disk, 'b'), (with_cols, 'a')]
+            rows = []
+            for layer, field in calls:
+                for key in ids:
+                    row = {'field': field, 'key': key, 'reference': to_json(getattr(plain, field)(key))}
+                    try:
+                        row['value'] = to_json(getattr(layer, field)(key))
+                    except BaseException as e:  # noqa
+                        row['exc'] = exc_name(e)
+                    rows.append(row)
+            rec['orders'].append({'order': order, 'rows': rows})
+        finally:
+            shutil.rmtree(root, ignore_errors=True)
+    return rec
+
+
 def main():
     ap = argparse.ArgumentParser()
     ap.add_argument('--seed', type=int, default=0)
@@ -218,7 +263,8 @@ def main():
     ap.add_argument('--out', required=True)
     a = ap.parse_args()
     rnd = random.Random(a.seed * 17 + 5)
-    dump({'families': [family(rnd) for _ in range(a.n)]}, a.out)
+    fams = [family(rnd) for _ in range(a.n)]
+    dump({'families': fams, 'shared_folders': [shared_folders(rnd, k) for k in range(max(6, a.n // 6))]}, a.out)
 
 
 if __name__ == '__main__':
